@@ -1,7 +1,7 @@
 #!/bin/bash
 # Sensitivity runs in a scratch copy (never in /repo):  sens.sh setup | sens.sh run <patch.diff|revert:<commit>> <ID>... | sens.sh clean
 # Results are appended to /verif/notes/sensitivity.log
-S=/tmp/sens
+S=${SENS_DIR:-/tmp/sens}
 case "$1" in
  setup)
   rm -rf $S; mkdir -p $S
